@@ -88,8 +88,9 @@ def anneal_temperature_range(model, start_flip_prob=0.5,
     except AttributeError:
         variables = set(v for k in model for v in k)
 
-    # if the model is empty or just an offset
-    if not variables:
+    # if the model is empty or just an offset. A model object can still
+    # report variables that none of its terms contain anymore.
+    if not variables or not any(model):
         return 0, 0
 
     factor = 2  # should be this (I think)
